@@ -38,7 +38,7 @@ FAMILY = {
               R('x', ('alt', ('seq', T('a'), C('y')), T('b'))), R('y', ('alt', T('b'), ('void',)))],
     'retry-nomemo': [R('start', ('alt', ('seq', C('x'), T('a')), ('seq', C('x'), T('b')), C('x'))),
                      R('x', ('alt', ('seq', T('a'), C('y')), T('b')), decorators=('nomemo',)), R('y', ('alt', T('b'), ('void',)))],
-    'params': [R('start', ('seq', ('pclo', ('alt', C('p'), C('q'), C('z'))), ('eof',))),
+    'params': [R('start', ('seq', ('pclo', ('alt', C('z'), C('p'), C('q'))), ('eof',))),
                R('p', T('a'), params=('A', 1)), R('q', T('b'), kwparams=(('k', 2),)),
                R('z', ('seq', T('a'), T('b')), params=('Z',), kwparams=(('level', 0), ('flag', False), ('label', ''))) ],
     'named': [R('start', ('seq', ('named', 'l', C('x')), ('named', 'r', ('opt', C('y'))))),
